@@ -393,3 +393,10 @@ Definition patch_case (node : nat) (ms : list mem) (patches : list (nat * list a
   | POk _, None => [95; 1; 0]
   | PErr, Some _ => [95; 0; 1]
   end.
+
+From Prophy Require Import PcIsar.
+
+(* isar member records (C17): names m<k> -> k, has_m<k> -> 1000+k, numOfM<k> -> 2000+k, m<k>_len -> 3000+k, type u32 -> 0 *)
+Definition isar_case (name tp : nat) (optional : bool) (dim : option dimension) (dyn : bool) (obs : list mem) : list Z :=
+  let r := isar_members (fun n => 1000 + n)%nat (fun n => 2000 + n)%nat (fun n => 3000 + n)%nat 0%nat name tp optional dim dyn in
+  if list_eqb mem_eqb r obs then [] else [94; Z.of_nat (length r); Z.of_nat (length obs)].
